@@ -9,9 +9,11 @@ Open Scope string_scope.
 Inductive discipline := Checked | PushFirst | PartialLoop.
 
 (* push_diff_list comes before the call that validates *)
+(* set_timezone, set_locale, set_frozen_rows_count, set_frozen_columns_count and delete_sheet
+   were in this list until the repair 'fix: record the history entry only after the operation
+   succeeded' / 'fix: delete_sheet records history ... only after the deletion succeeded' *)
 Definition push_first_cells : list string :=
-  [ "frozen_rows/negative"; "frozen_rows/past-grid"; "frozen_columns/negative"; "frozen_columns/past-grid";
-    "set_locale/bad-locale"; "set_timezone/bad-timezone"; "paste_csv/partly-off-grid" ].
+  [ "paste_csv/partly-off-grid" ].
 
 (* a loop that mutates item by item; the listed argument classes have valid items before the bad one *)
 Definition partial_loop_cells : list string :=
